@@ -33,7 +33,7 @@ class FrameID(Enum):
     RADAR_FRONT = "radar_front"
     RADAR_FRONT_RIGHT = "radar_front_right"
     RADAR_FRONT_LEFT = "radar_front_left"
-    RADAR_BACK = "RADAR_BACK"
+    RADAR_BACK = "radar_back"
     RADAR_BACK_RIGHT = "radar_back_right"
     RADAR_BACK_LEFT = "radar_back_left"
 
